@@ -154,6 +154,20 @@ def check_sf_structure(ctx):
                             lc_ = loop_as_comprehension(s_, tg_.id)
                             if lc_ is not None:
                                 comps.append(ast.copy_location(ast.Assign(targets=[ast.Name(id=tg_.id, ctx=ast.Store())], value=lc_, lineno=s_.lineno), s_))
+    if not comps:
+        # no fftfreq anywhere: the per-axis components are whatever list is handed to the outer sum reduce(np.add.outer, X)
+        for c_ in fv.calls():
+            if U(c_.func).split(".")[-1] == "reduce" and len(c_.args) >= 2 and U(c_.args[0]) in ("np.add.outer", "numpy.add.outer") and isinstance(c_.args[1], ast.Name):
+                X_ = c_.args[1].id
+                for s_ in fv.statements():
+                    if isinstance(s_, ast.Assign) and isinstance(s_.targets[0], ast.Name) and s_.targets[0].id == X_ and isinstance(s_.value, ast.ListComp):
+                        comps.append(s_)
+                if not comps:
+                    for s_ in fv.statements():
+                        if isinstance(s_, ast.For):
+                            lc_ = loop_as_comprehension(s_, X_)
+                            if lc_ is not None:
+                                comps.append(ast.copy_location(ast.Assign(targets=[ast.Name(id=X_, ctx=ast.Store())], value=lc_, lineno=s_.lineno), s_))
     km = []
     if len(comps) == 1:
         lc = comps[0].value
@@ -191,9 +205,29 @@ def check_sf_structure(ctx):
                     ok = n_arg is not None and d_arg is not None and U(n_arg) == "grid.shape[__i]" and cvx.conv(d_arg) == cvx.conv(ast.parse("grid.discretization[__i] / (2 * np.pi)", mode="eval").body)
                 except _NA:
                     ok = False
-        ctx.decide(ok, "INDEXAGREE", SF + ":wave-vectors", (fi, comps[0]) if fv.node_of(comps[0]) is not None else fi,
-                   "component i of the wave vectors = 2π·fftfreq(shape[i], spacing[i]) for every axis i (same index for size and spacing)",
-                   f"wave-vector components are `{detail}`; every axis i needs fftfreq(grid.shape[i], d=grid.discretization[i]/(2π)) with its own cell count and its own spacing")
+        handwritten = None
+        if ef is not None and not [c for c in ast.walk(lc.elt) if isinstance(c, ast.Call) and U(c.func).endswith("fftfreq")] and "fftfreq" not in U(fv.expand(lc.elt, comps[0]) if fv.node_of(comps[0]) is not None else lc.elt):
+            # hand-written mode numbers np.arange(A, B) (shifted): the discrete Fourier modes of n cells are −(n//2) … (n−1)//2 (numpy's convention);
+            # `-n // 2` is floor(−n/2) = −ceil(n/2), one too low for an odd number of cells
+            handwritten = "unknown"
+            for c_ in ast.walk(lc.elt):
+                if isinstance(c_, ast.Call) and U(c_.func).split(".")[-1] == "arange" and len(c_.args) == 2:
+                    a_, b_ = (U(x_).replace(" ", "") for x_ in c_.args)
+                    nn = a_.replace("-(", "").replace(")//2", "").replace("//2", "").replace("-", "").replace("(", "").replace(")", "")
+                    if a_ in (f"-({nn}//2)",) and b_ in (f"({nn}+1)//2", f"{nn}-{nn}//2", f"-(-{nn}//2)"):
+                        handwritten = "right"
+                    elif a_ == f"-{nn}//2":
+                        handwritten = "wrong"
+        if handwritten == "wrong":
+            ctx.violate("INDEXAGREE", SF + ":wave-vectors", (fi, comps[0]) if fv.node_of(comps[0]) is not None else fi,
+                        f"hand-written mode numbers `{detail}`: `-n // 2` is −ceil(n/2), so for an odd number of cells every mode is attributed to the neighbouring wave number (the range is "
+                        "−(n+1)/2 … (n−3)/2 instead of −(n−1)/2 … (n−1)/2); the spectrum and every length scale derived from it are shifted by one Fourier bin on such grids")
+        elif handwritten is not None:
+            ctx.undecided("INDEXAGREE", SF + ":wave-vectors", (fi, comps[0]) if fv.node_of(comps[0]) is not None else fi, f"hand-written wave numbers `{detail}` (no fftfreq)")
+        else:
+          ctx.decide(ok, "INDEXAGREE", SF + ":wave-vectors", (fi, comps[0]) if fv.node_of(comps[0]) is not None else fi,
+                     "component i of the wave vectors = 2π·fftfreq(shape[i], spacing[i]) for every axis i (same index for size and spacing)",
+                     f"wave-vector components are `{detail}`; every axis i needs fftfreq(grid.shape[i], d=grid.discretization[i]/(2π)) with its own cell count and its own spacing")
         kname = U(comps[0].targets[0])
         km = [s for s in fv.statements() if isinstance(s, ast.Assign) and ".flat[1:]" in U(s.value) and "reduce" in U(fv.expand(s.value, s, stop=(kname,))) and kname in names_in(fv.expand(s.value, s, stop=(kname,)))]
         okk = len(km) == 1 and U(fv.expand(km[0].value, km[0], stop=(kname,))).replace(" ", "") == f"np.sqrt(reduce(np.add.outer,{kname})).flat[1:]"
